@@ -83,7 +83,7 @@ Section Spec.
 
   (* the resource the request is for: registered resource -> (proxy) -> unknown-resource handler
      with the WELLKNOWN flag -> built-in /.well-known/core -> unknown-resource handler *)
-  Definition sp_target : dp_target := dp_lookup cfg sp_forward code (dp_uri_path opts).
+  Definition sp_target : dp_target := dp_lookup cfg sp_forward code (dp_uri_path cfg opts).
   Definition sp_found : bool := match sp_target with TNone => false | _ => true end.
 
   Definition sp_applies (e : dp_err) : bool :=
@@ -178,11 +178,12 @@ Section Spec.
 End Spec.
 
 (* what the model does not describe: Proxy-Uri with a proxy resource (URI splitting is C16's
-   subject), and a handler that answers 5.08 itself (proxy loop detection of
-   coap_send_internal) *)
+   subject), a handler that answers 5.08 itself (proxy loop detection of coap_send_internal),
+   and the built-in /.well-known/core answer to a request with a Block2 option (block-wise) *)
 Definition dp_in_scope (cfg : dp_cfg) (h : dp_hreq -> dp_hresp) (req : msg) : Prop :=
   (sp_has_proxy cfg = true -> dp_has DP_PROXY_URI (m_opts req) = false) /\
-  (forall i, hr_code (h i) <> 168).
+  (forall i, hr_code (h i) <> 168) /\
+  (dp_has DP_BLOCK2 (m_opts req) = true -> sp_target cfg req <> TWellKnown).
 
 Definition dp_txs (out : list dp_ev) : list msg :=
   flat_map (fun e => match e with EvTx _ m => [m] | _ => [] end) out.
